@@ -43,6 +43,10 @@ pub fn tok_of(op: &Operator) -> String {
         I32Eq => "i32.eq".into(),
         I32LtU => "i32.lt_u".into(),
         I32And => "i32.and".into(),
+        I32Or => "i32.or".into(),
+        I32Xor => "i32.xor".into(),
+        I32Ne => "i32.ne".into(),
+        I32GtU => "i32.gt_u".into(),
         I32RemU => "i32.rem_u".into(),
         I32DivU => "i32.div_u".into(),
         I32Load { memarg } => format!("i32.load:{}", memarg.offset),
